@@ -206,7 +206,7 @@ def rule_r4(repo):
 def rule_r7(repo):
     rr = RuleResult('C05.R7', 'an all-equal string column decodes to the same bytes compressed and uncompressed (missing = all ones included)')
     m = 'process_string_compressed'
-    for val in (b'\xff\xff', b'AB', b'A '):
+    for val in (b'\xff\xff', b'AB', b'A ', b'\x00\x00', b'\x00A'):
         fi, recs, _ = run_primitive(repo, 'Decoder', m, reads=[val], params_over={'nbytes_min_value': 2})
         hit = False
         for r in recs:
